@@ -429,6 +429,85 @@ func init() {
 		}
 		return c.intConst(i)
 	})
+	// ---- randomness: an arbitrary choice, explored exhaustively ----
+	reg("github.com/synnaxlabs/x/rand.SubMap", func(c *Ctx, fn *ssa.Function, a []Value) Value {
+		m := a[0].(*MapV)
+		n := int(c.concretizeInt(a[1].(*Term), "SubMap size"))
+		var entries []mapEntry
+		if m != nil {
+			entries = m.entries
+		}
+		if n > len(entries) {
+			c.unsupported("rand.SubMap asked for more elements than the map holds (does not terminate)")
+		}
+		c.nextObj++
+		out := &MapV{id: c.nextObj}
+		if m != nil {
+			out.kt, out.vt = m.kt, m.vt
+		}
+		// choose an arbitrary subset of exactly n entries: for each entry decide in/out while feasible
+		need := n
+		for i, e := range entries {
+			remaining := len(entries) - i
+			if need == 0 {
+				break
+			}
+			take := true
+			if remaining > need {
+				take = c.chooseAll(2) == 0
+			}
+			if take {
+				out.entries = append(out.entries, e)
+				need--
+			}
+		}
+		return out
+	})
+	reg("github.com/synnaxlabs/x/rand.MapElem github.com/synnaxlabs/x/rand.MapValue github.com/synnaxlabs/x/rand.MapKey", func(c *Ctx, fn *ssa.Function, a []Value) Value {
+		m := a[0].(*MapV)
+		if m == nil || len(m.entries) == 0 {
+			switch fn.Name() {
+			case "MapElem":
+				return TupleV{c.zero(fn.Signature.Results().At(0).Type()), c.zero(fn.Signature.Results().At(1).Type())}
+			}
+			return c.zero(fn.Signature.Results().At(0).Type())
+		}
+		i := 0
+		if len(m.entries) > 1 {
+			i = c.chooseAll(len(m.entries))
+		}
+		e := m.entries[i]
+		switch fn.Name() {
+		case "MapElem":
+			return TupleV{e.k, e.v}
+		case "MapKey":
+			return e.k
+		}
+		return e.v
+	})
+	// ---- errgroup: Go(f) runs f synchronously, Wait returns the first error ----
+	reg("(*golang.org/x/sync/errgroup.Group).Go", func(c *Ctx, fn *ssa.Function, a []Value) Value {
+		k := "errgroup:" + a[0].(PtrV).key()
+		r := c.callValue(a[1], nil, nil).(IfaceV)
+		if r.t != nil && c.extra[k] == nil {
+			c.extra[k] = r
+		}
+		return nil
+	})
+	reg("(*golang.org/x/sync/errgroup.Group).Wait", func(c *Ctx, fn *ssa.Function, a []Value) Value {
+		k := "errgroup:" + a[0].(PtrV).key()
+		if e, ok := c.extra[k].(IfaceV); ok {
+			return e
+		}
+		return IfaceV{}
+	})
+	// ---- context: deadlines and cancellation are not modelled (ctx.Err() stays nil unless the harness supplies its own context)
+	ctxWith := func(c *Ctx, fn *ssa.Function, a []Value) Value {
+		cancel := &ClosureV{native: func(c *Ctx, args []Value) Value { return nil }}
+		return TupleV{a[0], cancel}
+	}
+	reg("context.WithTimeout context.WithCancel context.WithDeadline", ctxWith)
+	reg("context.WithoutCancel", func(c *Ctx, fn *ssa.Function, a []Value) Value { return a[0] })
 	// ---- runtime / misc ----
 	reg("runtime.Gosched runtime.GC runtime.KeepAlive", func(c *Ctx, fn *ssa.Function, a []Value) Value { return nil })
 	reg("(*go.uber.org/zap.Logger).Check", func(c *Ctx, fn *ssa.Function, a []Value) Value { return PtrV{} })
